@@ -485,7 +485,7 @@ func vpC22HeavyDivisor(codec string, l int) int {
 func vpC22HeavyLevel(codec string, l int) bool {
 	switch codec {
 	case "brotli":
-		return l >= 10
+		return l >= 7 // hash tables of 8 MiB (quality 7) to >100 MiB (10, 11 and everything above the range) per stream
 	case "zstd":
 		return l == 3 || l == 4
 	}
@@ -759,6 +759,9 @@ func TestVP_C22_Codec(t *testing.T) {
 			}
 		} else {
 			base = vpC22GenBody(t, 65536)
+			if n >= 16 && len(base) > 8192 {
+				base = base[:8192]
+			}
 		}
 		calls := make([]*vpC22Call, n)
 		for i := range calls {
